@@ -64,7 +64,7 @@ var c02Table = map[string]triage{
 	`(x/dispute/keeper.Keeper).ExecuteVote # err-local:errors.New "can't execute, dispute not resolved"`:                            {"linked", "reached from the hook only under BlockTime > DisputeEndTime or status Resolved; with a tallied vote the first branch then sets Resolved (PENDING-IMPLIES-TALLIED)"},
 	`(x/dispute/keeper.Keeper).ExecuteVote # err-local:errors.New "vote already executed"`:                                          {"linked", "every success path of ExecuteVote stores PendingExecution=false, and a superseded round is closed with PendingExecution=false (EXECUTE-CLEARS-PENDING, CLOSE-CLEARS-PENDING)"},
 	`(x/dispute/keeper.Keeper).ExecuteVote # err-local:errors.New "vote hasn't been tallied yet"`:                                   {"linked", "PENDING-IMPLIES-TALLIED"},
-	`(x/dispute/keeper.Keeper).GetSumOfAllGroupVotesAllRounds # err-ext:coll:x/dispute/keeper.Keeper.Disputes.Get`:                  {"accepted", "same id as read by the caller"},
+	`(x/dispute/keeper.Keeper).sumOfGroupVotesAllRounds # err-ext:coll:x/dispute/keeper.Keeper.Disputes.Get`:                        {"accepted", "same id as read by the caller"},
 	`(x/dispute/keeper.Keeper).GetTeamAddress # err-ext:coll:x/dispute/keeper.Keeper.Params.Get`:                                    {"accepted", "Params written in InitGenesis (GENESIS-WRITES)"},
 	`(x/dispute/keeper.Keeper).ReturnSlashedTokens # err-ext:iface:x/dispute/types.BankKeeper.SendCoinsFromModuleToModule`:          {"accepted", "escrow covers the slashed amount (C04/C13 numeric; not decided)"},
 	`(x/dispute/keeper.Keeper).TallyVote # err-ext:coll:x/dispute/keeper.Keeper.BlockInfo.Get`:                                      {"linked", "BlockInfo is written on every success path of SetNewDispute and removed only by ExecuteVote (BLOCKINFO-LIFETIME); a superseded round leaves the pending-execution index (CLOSE-CLEARS-PENDING)"},
